@@ -113,35 +113,46 @@ theorem C16_validated_no_delims (o : Oracles) (h r : Str) (ha : isAscii h = true
     key 64 (by decide) (by decide), key 58 (by decide) (by decide), key 91 (by decide) (by decide),
     key 93 (by decide) (by decide), key 32 (by decide) (by decide)⟩
 
-/-- a non-ASCII host is validated AFTER IDNA encoding (whatever the IDNA oracle returns) -/
+/-- a non-ASCII host is validated AFTER IDNA encoding (whatever the IDNA oracle returns).  Since fix 3fbf5b4 an
+    answer that holds a ':' is not returned as such: it goes through `_encode_host` again and is accepted only as
+    an IP literal (canonical text `ipRes a`, zone screened). -/
 theorem C16_idna_validated (o : Oracles) (h r : Str) (hna : isAscii h = false)
     (hip : parseIP (partition 37 h).1 = none) :
+    encodeHost o h true = .ok r → ∃ a, idnaEncode o h = .ok a ∧
+      ((mem 58 a = false ∧ r = a ∧ notRegName r = false) ∨
+       (mem 58 a = true ∧ ipRes a = some r ∧ zoneBad a true = false)) := by
+  intro he
+  exact regPath_idn_validated hna (encodeHost_noIP o h true r hip he)
+
+/-- the pre-3fbf5b4 form of `C16_idna_validated`, for an IDNA answer without ':' (every reg-name answer) -/
+theorem C16_idna_validated_no_colon (o : Oracles) (h r : Str) (hna : isAscii h = false)
+    (hip : parseIP (partition 37 h).1 = none) (hc : ∀ a, idnaEncode o h = .ok a → mem 58 a = false) :
     encodeHost o h true = .ok r → idnaEncode o h = .ok r ∧ notRegName r = false := by
   intro he
-  have hreg := encodeHost_noIP o h true r hip he
-  simp only [regPath, hna, Bool.false_eq_true, ↓reduceIte, Bool.true_and] at hreg
-  cases hi : idnaEncode o h with
-  | error e => rw [hi] at hreg; cases hreg
-  | ok x =>
-    rw [hi] at hreg
-    simp only [bind, Except.bind] at hreg
-    split at hreg
-    · cases hreg
-    · rename_i hv
-      cases hreg
-      exact ⟨rfl, by simpa using hv⟩
+  obtain ⟨a, hi, ⟨_, rfl, hn⟩ | ⟨h58, _⟩⟩ := C16_idna_validated o h r hna hip he
+  · exact ⟨hi, hn⟩
+  · rw [hc a hi] at h58; cases h58
 
-/-- whatever the host, a validated result either is an IP literal or passes the reg-name screen -/
+/-- whatever the host, a validated result either is an IP literal, or passes the reg-name screen, or (since fix
+    3fbf5b4) is the IP literal that the IDNA answer of a non-ASCII host spells -/
 theorem C16_validated_general (o : Oracles) (h r : Str) :
-    encodeHost o h true = .ok r → (∃ ip, parseIP (partition 37 h).1 = some ip) ∨ notRegName r = false := by
+    encodeHost o h true = .ok r → (∃ ip, parseIP (partition 37 h).1 = some ip) ∨ notRegName r = false ∨
+      (isAscii h = false ∧ ∃ a ip, idnaEncode o h = .ok a ∧ parseIP (partition 37 a).1 = some ip) := by
   intro he
   cases hip : parseIP (partition 37 h).1 with
   | some ip => exact Or.inl ⟨ip, rfl⟩
   | none =>
     right
     cases ha : isAscii h with
-    | true => exact C16_validated_regname o h r ha hip he
-    | false => exact (C16_idna_validated o h r ha hip he).2
+    | true => exact Or.inl (C16_validated_regname o h r ha hip he)
+    | false =>
+      obtain ⟨a, hi, ⟨_, _, hn⟩ | ⟨_, hr, _⟩⟩ := C16_idna_validated o h r ha hip he
+      · exact Or.inl hn
+      · right
+        refine ⟨rfl, a, ?_⟩
+        cases hp : parseIP (partition 37 a).1 with
+        | some ip => exact ⟨ip, hi, rfl⟩
+        | none => simp [ipRes, hp] at hr
 
 /-! ### IPv4 literals -/
 
@@ -423,60 +434,60 @@ theorem C16_regNameChars_lower {c : Nat} (h : c = 37 ∨ mem c Gen.regNameChars 
   · have := (C16_regNameChars_rfc c).1 h
     exact ⟨this.1, this.2.2⟩
 
+/-- the canonical text of an IP literal without a zone separator is lower-case ASCII -/
+theorem C16_ipRes_lower_ascii (h r : Str) (h37 : 37 ∉ h) (hip : ipRes h = some r) : isLowerAscii r := by
+  have hp := partition_not_mem 37 h h37
+  simp only [ipRes, hp] at hip
+  cases h4 : parseIPv4 h with
+  | some o4 =>
+    simp only [parseIP, h4, Bool.false_eq_true, ↓reduceIte, Option.some.injEq] at hip
+    rw [← hip, (C16_ipv4_canonical h o4 h4).1]
+    intro c hc
+    rcases parseIPv4_chars h4 c hc with rfl | hd
+    · omega
+    · simp [isDigitC] at hd; omega
+  | none =>
+    cases h6 : parseIPv6 h with
+    | none => simp [parseIP, h4, h6] at hip
+    | some h8 =>
+      simp only [parseIP, h4, h6, Option.map_some, Bool.false_eq_true, ↓reduceIte, Option.some.injEq] at hip
+      rw [← hip]
+      intro c hc
+      simp only [List.mem_append, List.mem_cons, List.not_mem_nil, or_false] at hc
+      rcases hc with (rfl | hc) | rfl
+      · omega
+      · rcases C16_ipv6_text_lower h8 c hc with rfl | hd | hd
+        · omega
+        · simp [isDigitC] at hd; omega
+        · omega
+      · omega
+
 /-- a host without a zone separator: the encoded host is lower-case ASCII whenever the input is ASCII
-    (reg-name, IPv4 or IPv6) or validation is on (then also for IDNA output, whatever the oracle returns) -/
+    (reg-name, IPv4 or IPv6) or validation is on (then also for IDNA output, whatever the oracle returns —
+    provided, since fix 3fbf5b4, that the IDNA answer carries no zone separator either (`h37a`): an answer that
+    spells an IP literal with a zone is canonicalised as one and its zone is copied verbatim) -/
 theorem C16_result_lower_ascii (o : Oracles) (h : Str) (v : Bool) (r : Str) (h37 : 37 ∉ h)
+    (h37a : isAscii h = false → ∀ a, idnaEncode o h = .ok a → 37 ∉ a)
     (hav : isAscii h = true ∨ v = true) : encodeHost o h v = .ok r → isLowerAscii r := by
   intro he
   rcases encodeHost_cases he with hip | hreg
-  · have hp := partition_not_mem 37 h h37
-    simp only [ipRes, hp] at hip
-    cases h4 : parseIPv4 h with
-    | some o4 =>
-      simp only [parseIP, h4, Bool.false_eq_true, ↓reduceIte, Option.some.injEq] at hip
-      rw [← hip, (C16_ipv4_canonical h o4 h4).1]
-      intro c hc
-      rcases parseIPv4_chars h4 c hc with rfl | hd
-      · omega
-      · simp [isDigitC] at hd; omega
-    | none =>
-      cases h6 : parseIPv6 h with
-      | none => simp [parseIP, h4, h6] at hip
-      | some h8 =>
-        simp only [parseIP, h4, h6, Option.map_some, Bool.false_eq_true, ↓reduceIte, Option.some.injEq] at hip
-        rw [← hip]
-        intro c hc
-        simp only [List.mem_append, List.mem_cons, List.not_mem_nil, or_false] at hc
-        rcases hc with (rfl | hc) | rfl
-        · omega
-        · rcases C16_ipv6_text_lower h8 c hc with rfl | hd | hd
-          · omega
-          · simp [isDigitC] at hd; omega
-          · omega
-        · omega
-  · unfold regPath at hreg
-    split at hreg
-    · rename_i ha
+  · exact C16_ipRes_lower_ascii h r h37 hip
+  · cases ha : isAscii h with
+    | true =>
+      simp only [regPath, ha, ↓reduceIte] at hreg
       split at hreg
       · cases hreg
       · cases hreg; exact C16_lower_isLowerAscii h ha
-    · rename_i hna
+    | false =>
       have hv : v = true := by
-        rcases hav with ha | hv
-        · exact absurd ha hna
+        rcases hav with ha' | hv
+        · rw [ha] at ha'; cases ha'
         · exact hv
       subst hv
-      cases hi : idnaEncode o h with
-      | error e => rw [hi] at hreg; cases hreg
-      | ok x =>
-        rw [hi] at hreg
-        simp only [bind, Except.bind, Bool.true_and] at hreg
-        split at hreg
-        · cases hreg
-        · rename_i hn
-          cases hreg
-          intro c hc
-          exact C16_regNameChars_lower (notRegName_spec _ (by simpa using hn) c hc)
+      obtain ⟨a, hi, ⟨_, rfl, hn⟩ | ⟨_, hr, _⟩⟩ := regPath_idn_validated ha hreg
+      · intro c hc
+        exact C16_regNameChars_lower (notRegName_spec _ hn c hc)
+      · exact C16_ipRes_lower_ascii a r (h37a ha a hi) hr
 
 /-! ### the zone id of an IP literal is validated -/
 
@@ -573,32 +584,35 @@ theorem zoneBad_true_false {h : Str} (hz : zoneBad h true = false) (hsep : (part
     notRegName (lower (partition 37 h).2.2) = false := by
   simpa [zoneBad, hsep] using hz
 
-/-- every accepted validated host: the IP-branch text with a screened zone, or a string passing `NOT_REG_NAME` -/
+/-- every accepted validated host: the IP-branch text with a screened zone, or a string passing `NOT_REG_NAME`,
+    or (fix 3fbf5b4) the IP-branch text of the IDNA answer of a non-ASCII host -/
 theorem validated_cases {o : Oracles} {h r : Str} (he : encodeHost o h true = .ok r) :
-    (ipRes h = some r ∧ zoneBad h true = false) ∨ (notRegName r = false ∧ (isAscii h = true → r = lower h)) := by
+    (ipRes h = some r ∧ zoneBad h true = false) ∨ (notRegName r = false ∧ (isAscii h = true → r = lower h)) ∨
+      (isAscii h = false ∧ ∃ a, idnaEncode o h = .ok a ∧ mem 58 a = true ∧ ipRes a = some r ∧ zoneBad a true = false) := by
   rcases encodeHost_casesV he with hip | ⟨_, hreg⟩
   · exact Or.inl hip
   · right
-    unfold regPath at hreg
-    split at hreg
-    · rename_i ha
-      simp only [Bool.true_and] at hreg
+    cases ha : isAscii h with
+    | true =>
+      left
+      simp only [regPath, ha, ↓reduceIte, Bool.true_and] at hreg
       split at hreg
       · cases hreg
       · rename_i hn
         cases hreg
         exact ⟨by simpa using hn, fun _ => rfl⟩
-    · rename_i hna
-      cases hi : idnaEncode o h with
-      | error e => rw [hi] at hreg; cases hreg
-      | ok x =>
-        rw [hi] at hreg
-        simp only [bind, Except.bind, Bool.true_and] at hreg
-        split at hreg
-        · cases hreg
-        · rename_i hn
-          cases hreg
-          exact ⟨by simpa using hn, fun ha => absurd ha hna⟩
+    | false =>
+      obtain ⟨a, hi, ⟨_, rfl, hn⟩ | ⟨h58, hr, hz⟩⟩ := regPath_idn_validated ha hreg
+      · exact Or.inl ⟨hn, fun h' => by cases h'⟩
+      · exact Or.inr ⟨rfl, a, hi, h58, hr, hz⟩
+
+/-- … in the form most consumers need: the IP-branch text of SOME text with a screened zone, or reg-name text -/
+theorem validated_cases' {o : Oracles} {h r : Str} (he : encodeHost o h true = .ok r) :
+    (∃ t, ipRes t = some r ∧ zoneBad t true = false) ∨ notRegName r = false := by
+  rcases validated_cases he with hip | ⟨hn, _⟩ | ⟨_, a, _, _, hr, hz⟩
+  · exact Or.inl ⟨h, hip⟩
+  · exact Or.inr hn
+  · exact Or.inl ⟨a, hr, hz⟩
 
 end HostLemmas
 
@@ -609,7 +623,7 @@ theorem C16_zone_validated (o : Oracles) (h r : Str) (ha : isAscii h = true) : e
     (∃ ip, parseIP (partition 37 h).1 = some ip) → (partition 37 h).2.1 = true →
     notRegName (lower (partition 37 h).2.2) = false := by
   intro he _ hsep
-  rcases validated_cases he with ⟨_, hz⟩ | ⟨hn, hr⟩
+  rcases validated_cases he with ⟨_, hz⟩ | ⟨hn, hr⟩ | ⟨hna, _⟩
   · exact zoneBad_true_false hz hsep
   · -- the host went down the reg-name path: the whole lower-cased host passed the screen, hence its suffix
     rw [hr ha, partition_sep_decomp 37 h hsep] at hn
@@ -618,13 +632,16 @@ theorem C16_zone_validated (o : Oracles) (h r : Str) (ha : isAscii h = true) : e
       simp [lower, lowerC]
     rw [this] at hn
     exact notRegName_append_false hn
+  · rw [ha] at hna; cases hna
 
 /-- without the ASCII hypothesis: either the zone is clean, or the host is non-ASCII, did not "look like an IP"
-    (no ':' and the last character is not a digit) and the result is the IDNA encoding, which passed the screen -/
+    (no ':' and the last character is not a digit) and the result is the IDNA encoding, which passed the screen
+    (or, since fix 3fbf5b4, the IP literal spelled by an IDNA answer that holds a ':', its own zone screened) -/
 theorem C16_zone_validated_general (o : Oracles) (h r : Str) : encodeHost o h true = .ok r →
     (∃ ip, parseIP (partition 37 h).1 = some ip) → (partition 37 h).2.1 = true →
     notRegName (lower (partition 37 h).2.2) = false ∨
-      (isAscii h = false ∧ looksIP o h = .ok false ∧ idnaEncode o h = .ok r ∧ notRegName r = false) := by
+      (isAscii h = false ∧ looksIP o h = .ok false ∧ ∃ a, idnaEncode o h = .ok a ∧
+        ((r = a ∧ notRegName r = false) ∨ (mem 58 a = true ∧ ipRes a = some r ∧ zoneBad a true = false))) := by
   intro he hip hsep
   cases ha : isAscii h with
   | true => exact Or.inl (C16_zone_validated o h r ha he hip hsep)
@@ -638,17 +655,9 @@ theorem C16_zone_validated_general (o : Oracles) (h r : Str) : encodeHost o h tr
           cases ip <;> simp [ipRes, hip] at hno
         · exact hno
       refine ⟨rfl, hl, ?_⟩
-      simp only [regPath, ha, Bool.false_eq_true, ↓reduceIte, Bool.true_and] at hreg
-      cases hi : idnaEncode o h with
-      | error e => rw [hi] at hreg; cases hreg
-      | ok x =>
-        rw [hi] at hreg
-        simp only [bind, Except.bind] at hreg
-        split at hreg
-        · cases hreg
-        · rename_i hn
-          cases hreg
-          exact ⟨rfl, by simpa using hn⟩
+      obtain ⟨a, hi, ⟨_, rfl, hn⟩ | ⟨h58, hr, hz⟩⟩ := regPath_idn_validated ha hreg
+      · exact ⟨r, hi, Or.inl ⟨rfl, hn⟩⟩
+      · exact ⟨a, hi, Or.inr ⟨h58, hr, hz⟩⟩
 
 /-- the oracle answers of CPython 3.12 for the host `"1.2.3.4%aaé"`: `idna.encode(…, uts46=True)` raises
     (`%` is not allowed), the stdlib codec gives `1.2.3.xn--4%aa-epa`, and `"é".isdigit()` is `False` -/
@@ -675,7 +684,7 @@ theorem C16_validated_never_injects (o : Oracles) (h r : Str) : encodeHost o h t
   intro he
   have key : ∀ k, (k = 64 ∨ k = 47 ∨ k = 63 ∨ k = 35) → k ∉ r := by
     intro k hk hkr
-    rcases validated_cases he with ⟨hip, hz⟩ | ⟨hn, _⟩
+    rcases validated_cases' he with ⟨t, hip, hz⟩ | hn
     · rcases ipRes_chars hip k hkr with h | h | h | h | h | h | h | ⟨hsep, hkz⟩
       · omega
       · omega
@@ -695,7 +704,7 @@ theorem C16_validated_never_injects (o : Oracles) (h r : Str) : encodeHost o h t
     (the zone id of an IP literal included) -/
 theorem C16_validated_ascii (o : Oracles) (h r : Str) : encodeHost o h true = .ok r → ∀ c ∈ r, c < 128 := by
   intro he c hc
-  rcases validated_cases he with ⟨hip, hz⟩ | ⟨hn, _⟩
+  rcases validated_cases' he with ⟨t, hip, hz⟩ | hn
   · rcases ipRes_chars hip c hc with h | h | h | h | h | h | h | ⟨hsep, hkz⟩
     · omega
     · omega
@@ -707,28 +716,33 @@ theorem C16_validated_ascii (o : Oracles) (h r : Str) : encodeHost o h true = .o
     · exact (zone_chars (zoneBad_true_false hz hsep) c hkz).1
   · exact (C16_regNameChars_lower (notRegName_spec r hn c hc)).1
 
+theorem ipRes_no_space {t r : Str} (hip : ipRes t = some r) (hz : zoneBad t true = false) : 32 ∉ r := by
+  intro hc
+  rcases ipRes_chars hip 32 hc with h | h | h | h | h | h | h | ⟨hsep, hkz⟩
+  · omega
+  · omega
+  · omega
+  · omega
+  · omega
+  · simp [isDigitC] at h
+  · omega
+  · have := zone_chars (zoneBad_true_false hz hsep) 32 hkz
+    omega
+
+theorem ipRes_some_parse {t r : Str} (hip : ipRes t = some r) : ∃ ip, parseIP (partition 37 t).1 = some ip := by
+  cases hp : parseIP (partition 37 t).1 with
+  | some ip => exact ⟨ip, rfl⟩
+  | none => simp [ipRes, hp] at hip
+
 /-- with validation on, the only characters of a result outside `reg-name` are the brackets and colons of an
-    IPv6 literal; in particular no space, and '[' , ']' , ':' only in the IP branch -/
+    IPv6 literal; in particular no space, and '[' , ']' , ':' only in the IP branch (of the host, or — since fix
+    3fbf5b4 — of the IDNA answer of a non-ASCII host) -/
 theorem C16_validated_chars (o : Oracles) (h r : Str) : encodeHost o h true = .ok r →
-    32 ∉ r ∧ ((∃ c ∈ r, c = 58 ∨ c = 91 ∨ c = 93) → ∃ ip, parseIP (partition 37 h).1 = some ip) := by
+    32 ∉ r ∧ ((∃ c ∈ r, c = 58 ∨ c = 91 ∨ c = 93) → (∃ ip, parseIP (partition 37 h).1 = some ip) ∨
+      (isAscii h = false ∧ ∃ a ip, idnaEncode o h = .ok a ∧ parseIP (partition 37 a).1 = some ip)) := by
   intro he
-  rcases validated_cases he with ⟨hip, hz⟩ | ⟨hn, _⟩
-  · constructor
-    · intro hc
-      rcases ipRes_chars hip 32 hc with h | h | h | h | h | h | h | ⟨hsep, hkz⟩
-      · omega
-      · omega
-      · omega
-      · omega
-      · omega
-      · simp [isDigitC] at h
-      · omega
-      · have := zone_chars (zoneBad_true_false hz hsep) 32 hkz
-        omega
-    · intro _
-      cases hp : parseIP (partition 37 h).1 with
-      | some ip => exact ⟨ip, rfl⟩
-      | none => simp [ipRes, hp] at hip
+  rcases validated_cases he with ⟨hip, hz⟩ | ⟨hn, _⟩ | ⟨hna, a, hi, _, hip, hz⟩
+  · exact ⟨ipRes_no_space hip hz, fun _ => Or.inl (ipRes_some_parse hip)⟩
   · have key : ∀ k, k ≠ 37 → mem k Gen.regNameChars = false → k ∉ r := by
       intro k h1 h2 hk
       rcases notRegName_spec r hn k hk with h | h
@@ -739,6 +753,8 @@ theorem C16_validated_chars (o : Oracles) (h r : Str) : encodeHost o h true = .o
     · exact absurd hc (key 58 (by decide) (by decide))
     · exact absurd hc (key 91 (by decide) (by decide))
     · exact absurd hc (key 93 (by decide) (by decide))
+  · obtain ⟨ip, hp⟩ := ipRes_some_parse hip
+    exact ⟨ipRes_no_space hip hz, fun _ => Or.inr ⟨hna, a, ip, hi, hp⟩⟩
 
 /-- `build()` validates the `host=` argument: it succeeds only if `_encode_host(host, validate_host=True)` does -/
 theorem C16_build_validates (e : Env) (a : BuildArgs) (u : Url) (henc : a.encoded = false)
